@@ -44,7 +44,7 @@ def _one(job):
         knownkeys = {k.get("key") for k in load_known() if k.get("status") == "known"}
         fired = [o for o in c.obls if o["verdict"] == "violation" and o.get("key") not in knownkeys]
         r = {"id": name, "kind": kind}
-        if err:
+        if err and not fired:
             r["status"] = "analysis-" + err[:160]
         elif fired:
             r["status"] = "alarm"
